@@ -38,6 +38,10 @@ BARRIER_OPS = {"wait", "reset", "abort"}
 
 
 MUTANTS = [
+    ("stripe request raised to the core count", "AegeanTools/BANE.py",
+     "    if (nslice is None) or (cores == 1):\n        nslice = cores",
+     "    if (nslice is None) or (cores == 1) or (nslice < cores):\n        nslice = cores",
+     "C07-R9"),
     ("closing grid row moved to the last own row", "AegeanTools/BANE.py",
      "    rows.append(ymax-data_row_min)\n",
      "    rows.append(ymax-data_row_min-1)\n", "C07-R8"),
@@ -231,6 +235,7 @@ def run(ctx):
     r5(ctx, worker, bglobal)
     r6(ctx, parent, tasks_expr, worker)
     r8_nodes(ctx, prog, worker)
+    r9_layout(ctx, prog, parent)
     # ---------------------------------------------------------------- R7
     ctx.rule("C07-R7", "stripe lay-out: rows and columns are never mixed in "
              "the worker -- the halo rows loaded around a stripe, the box "
@@ -955,6 +960,48 @@ def r5(ctx, worker, bglobal):
 
 
 # --------------------------------------------------------------------------
+def r9_layout(ctx, prog, parent, rule="C07-R9"):
+    """the stripe layout is a function of the request and the image, not of
+    the number of workers"""
+    from .. import concrete
+    ctx.rule(rule, "a fixed stripe layout for every worker count: the "
+             "statements of the parent that settle the number of stripes are "
+             "interpreted -- an explicit stripe request survives for every "
+             "core count above 1 (it is replaced only when it is None or when "
+             "a single core forces a single stripe)")
+    sp_ = [p_ for p_ in parent.params if "slice" in p_ or "stripe" in p_]
+    cp_ = [p_ for p_ in parent.params if "core" in p_]
+    if not sp_ or not cp_:
+        raise AnalysisError("%s: stripe / core parameters of %s" %
+                            (rule, parent.short))
+    sname, cname = sp_[0], cp_[0]
+    stmts = [st for st in parent.node.body
+             if isinstance(st, (ast.If, ast.Assign, ast.AugAssign)) and
+             any(isinstance(x, ast.Name) and x.id == sname and
+                 isinstance(x.ctx, ast.Store) for x in ast.walk(st))]
+    if not stmts:
+        raise AnalysisError("%s: no statement settles %s" % (rule, sname))
+    bad = []
+    n = 0
+    for req, cores in ((2, 2), (2, 3), (2, 8), (3, 2), (5, 3), (7, 16),
+                       (None, 4), (4, 1), (1, 6)):
+        env = {sname: req, cname: cores}
+        try:
+            concrete.run(stmts, env)
+        except concrete.Unknown as e:
+            raise AnalysisError("%s: stripe count: %s" % (rule, e))
+        n += 1
+        want = cores if (req is None or cores == 1) else req
+        if env[sname] != want:
+            bad.append((req, cores, env[sname], want))
+    ctx.check(rule, parent, "stripe count over %d (request, cores) pairs" % n,
+              not bad, "a request for %s stripes with %s cores becomes %s "
+              "stripes (expected %s): the layout, and with it the maps, "
+              "depend on the number of workers" %
+              (bad[0] if bad else ("", "", "", "")), node=stmts[0])
+    ctx.floor(rule, n, 9, "(request, cores) samples")
+
+
 def r8_nodes(ctx, prog, worker, rule="C07-R8"):
     """every stripe height gives a legal interpolation grid: the node added
     after list(range(a, b, s)) is >= b.  range() already holds b-1 whenever
